@@ -57,19 +57,36 @@ harnesses! {
         std::mem::forget((a, b, c, it));
     }
     /// Comparing colours never panics: every combination of special channel
-    /// values (NaN, infinity, out-of-range and in-range numbers), hsl against
-    /// hsl and hsl against hwb (the pairs that once unwrapped a partial_cmp).
+    /// values (quick: NaN, infinity, 0.5; thorough: also -1 and 300), hsl
+    /// against hsl and hsl against hwb (the pairs that once unwrapped a
+    /// partial_cmp); `==` agrees with `cmp`.
     fn c01_color_cmp_hsl_hsl_never_panics [unwind 6] [stub_deg_mod] (s) {
-        let a = special_color(s, 1);
-        let b = special_color(s, 1);
+        let a = special_color(s, 1, 3);
+        let b = special_color(s, 1, 3);
         cover!(a == b, "equal");
         let e = a == b;
         let o = a.cmp(&b);
         check!(e == o.is_eq(), "== agrees with cmp");
     }
     fn c01_color_cmp_hsl_hwb_never_panics [unwind 6] [stub_deg_mod] (s) {
-        let a = special_color(s, 1);
-        let b = special_color(s, 2);
+        let a = special_color(s, 1, 3);
+        let b = special_color(s, 2, 3);
+        cover!(a == b, "equal");
+        let e = a == b;
+        let o = b.cmp(&a);
+        check!(e == o.is_eq(), "== agrees with cmp");
+    }
+    fn c01t_color_cmp_hsl_hsl_more_specials [unwind 6] [stub_deg_mod] (s) {
+        let a = special_color(s, 1, 5);
+        let b = special_color(s, 1, 5);
+        cover!(a == b, "equal");
+        let e = a == b;
+        let o = a.cmp(&b);
+        check!(e == o.is_eq(), "== agrees with cmp");
+    }
+    fn c01t_color_cmp_hsl_hwb_more_specials [unwind 6] [stub_deg_mod] (s) {
+        let a = special_color(s, 1, 5);
+        let b = special_color(s, 2, 5);
         cover!(a == b, "equal");
         let e = a == b;
         let o = b.cmp(&a);
@@ -83,17 +100,11 @@ harnesses! {
         let o = a.cmp(&b);
         check!(a.partial_cmp(&b) == Some(o), "partial_cmp is cmp");
     }
-    /// Conversions between the representations never panic: ALL f64 inputs.
-    fn c01_color_conversions_never_panic [unwind 2] [stub_deg_mod] (s) {
-        let c = any_color(s);
-        cover!(matches!(c, Color::Hwba(_)), "hwb");
-        let r = c.to_rgba().into_owned();
-        let h = c.to_hsla().into_owned();
-        let w = c.to_hwba().into_owned();
-        let _ = r.to_bytes();
-        let _ = r.try_bytes();
-        let _ = (h.hue(), w.whiteness(), c.get_alpha());
-    }
+    /// Conversions between the representations never panic: ALL f64 inputs,
+    /// one harness per carrier.
+    fn c01_rgba_conversions_never_panic [unwind 2] [stub_deg_mod] (s) { conversions(s, 0) }
+    fn c01_hsla_conversions_never_panic [unwind 2] [stub_deg_mod] (s) { conversions(s, 1) }
+    fn c01_hwba_conversions_never_panic [unwind 2] [stub_deg_mod] (s) { conversions(s, 2) }
     /// Hue rotation and alpha changes never panic: ALL f64 inputs.
     fn c01_color_adjust_kernels_never_panic [unwind 2] [stub_deg_mod] (s) {
         let c = any_color(s);
@@ -151,6 +162,23 @@ harnesses! {
     }
 }
 
+fn conversions<S: crate::Src>(s: &mut S, kind: u8) {
+    let (a, b, c, d) = (s.f64(), s.f64(), s.f64(), s.f64());
+    let col: Color = match kind {
+        0 => Rgba::new(a, b, c, d, RgbFormat::Rgb).into(),
+        1 => Hsla::new(a, b, c, d, true).into(),
+        _ => Hwba::new(a, b, c, d).into(),
+    };
+    cover!(a.is_nan(), "NaN first channel");
+    cover!(a > 0.0 && b > 0.0 && c > 0.0, "positive channels");
+    let r = col.to_rgba().into_owned();
+    let h = col.to_hsla().into_owned();
+    let w = col.to_hwba().into_owned();
+    let _ = r.to_bytes();
+    let _ = r.try_bytes();
+    let _ = (h.hue(), w.whiteness(), col.get_alpha());
+}
+
 fn numeric_ops(x: f64, y: f64, i: u8, j: u8) {
     let a = Numeric::new(x, unit(i));
     let b = Numeric::new(y, unit(j));
@@ -164,15 +192,15 @@ fn numeric_ops(x: f64, y: f64, i: u8, j: u8) {
 }
 
 /// A colour of the given kind whose channels are drawn from special values.
-fn special_color<S: crate::Src>(s: &mut S, kind: u8) -> Color {
+fn special_color<S: crate::Src>(s: &mut S, kind: u8, nvals: u8) -> Color {
     let mut ch = [0.0f64; 4];
     let mut i = 0;
     while i < 4 {
-        ch[i] = match s.below(5) {
+        ch[i] = match s.below(nvals) {
             0 => f64::NAN,
             1 => f64::INFINITY,
-            2 => -1.0,
-            3 => 0.5,
+            2 => 0.5,
+            3 => -1.0,
             _ => 300.0,
         };
         i += 1;
